@@ -130,7 +130,7 @@ MODEL_MUTANTS = [
     ('DataSource.tla', 'ChunkRows(start, stop) == [k \\in 1..(stop - start) |-> from + start + k - 1]',
      'ChunkRows(start, stop) == [k \\in 1..(stop - start) |-> (IF kind = "fast" THEN 0 ELSE from) + start + k - 1]', 'DataSource.tla', 'MC_DataSource_quick.cfg', 'InOrder'),
     ('AttrEncoder.tla', 'hasVal  == ~(stored.list /\\ stored.n = 0)', 'hasVal  == TRUE', 'AttrEncoder.tla', 'MC_AttrEncoder.cfg', 'GrammarOk'),
-    ('ChannelDims.tla', 'ELSE dim\' = d /\\ lim\' = d /\\ pc\' = "write"', 'ELSE dim\' = (IF dim = << >> THEN d ELSE dim) /\\ lim\' = lim /\\ pc\' = "write"', 'ChannelDims.tla', 'MC_ChannelDims.cfg', 'Truthful'),
+    ('ChannelDims.tla', 'IF dim # d /\\ dim # << >> THEN pc\' = "raised"', 'IF FALSE /\\ dim # d THEN pc\' = "raised"', 'ChannelDims.tla', 'MC_ChannelDims.cfg', 'Contradiction'),
     ('RP66Prim.tla', 'IF n < 128 THEN << n >>', 'IF n <= 128 THEN << n >>', 'PrimModel.tla', 'PrimModel_quick.cfg', 'RoundTrip'),
 ]
 
@@ -178,9 +178,28 @@ def part_history_switches():
             shutil.rmtree(d, ignore_errors=True)
 
 
+def part_dlismodel_switches():
+    """DlisModel (reference configuration): without the write-time checks the model reproduces F22 / F23."""
+    for sw, expect in (('ForeignRefCheck = TRUE/ForeignRefCheck = FALSE', 'RefResolves'), ('HeaderSetCheck = TRUE/HeaderSetCheck = FALSE', 'HeaderOwn')):
+        d = tempfile.mkdtemp(prefix='stspec', dir='/tmp')
+        try:
+            for f in os.listdir(lib.SPEC):
+                if os.path.isfile(os.path.join(lib.SPEC, f)):
+                    shutil.copy(os.path.join(lib.SPEC, f), d)
+            a, b = sw.split('/')
+            p = os.path.join(d, 'MC_DlisModel_refs.cfg')
+            txt = open(p).read().replace('  ' + a, '  ' + b)
+            open(p, 'w').write(txt)
+            r = lib.run_tlc('DlisModel.tla', 'MC_DlisModel_refs.cfg', cwd=d, workers=8, coverage=False, timeout=900, heap='4g')
+            say(expect in r['violated'], f"DlisModel with '{b}': {expect} fails (violated: {r['violated']})")
+        finally:
+            shutil.rmtree(d, ignore_errors=True)
+
+
 def part_models():
     part_cache_switches()
     part_history_switches()
+    part_dlismodel_switches()
     for fname, old, new, module, cfg, expect in MODEL_MUTANTS:
         d = tempfile.mkdtemp(prefix='stspec', dir='/tmp')
         try:
